@@ -1,0 +1,170 @@
+package internal
+
+import (
+	"runtime"
+	"sync"
+	"sync/atomic"
+	"testing"
+	"time"
+
+	"github.com/stretchr/testify/require"
+)
+
+// copyBatch copies the hashes of a delivered batch, must be called before Free.
+func copyBatch(pb *PolicyBuffers[int, int]) []uint64 {
+	ids := make([]uint64, 0, len(pb.Returned))
+	for _, item := range pb.Returned {
+		ids = append(ids, item.hash)
+	}
+	return ids
+}
+
+// addUntilBatch adds up to limit uniquely numbered items (starting at *next) from
+// the calling goroutine and returns the first delivered batch (already freed).
+func addUntilBatch(b *Buffer[int, int], next *uint64, limit int) ([]uint64, bool) {
+	for i := 0; i < limit; i++ {
+		*next++
+		pb := b.Add(ReadBufItem[int, int]{hash: *next})
+		if pb != nil {
+			ids := copyBatch(pb)
+			b.Free()
+			return ids, true
+		}
+	}
+	return nil, false
+}
+
+func requireAtMostOnce(t *testing.T, delivered []uint64, maxID uint64) {
+	t.Helper()
+	seen := make(map[uint64]struct{}, len(delivered))
+	for _, id := range delivered {
+		require.True(t, id >= 1 && id <= maxID, "delivered item %d was never added", id)
+		_, dup := seen[id]
+		require.False(t, dup, "item %d delivered more than once", id)
+		seen[id] = struct{}{}
+	}
+}
+
+// The producer which claims the last free slot is the only one which tries to
+// drain. If it can't take the policy buffers because the previous batch was not
+// freed yet, the ring stays full and must be drained by a later Add, otherwise
+// the buffer never delivers anything again.
+func TestBuffer_FullRingWedge(t *testing.T) {
+	b := NewBuffer[int, int]()
+	delivered := []uint64{}
+	next := uint64(0)
+
+	// first batch, keep the policy buffers (slow consumer)
+	var first *PolicyBuffers[int, int]
+	for i := 0; i < capacity; i++ {
+		next++
+		pb := b.Add(ReadBufItem[int, int]{hash: next})
+		if i < capacity-1 {
+			require.Nil(t, pb)
+		} else {
+			first = pb
+		}
+	}
+	require.NotNil(t, first)
+	require.Equal(t, capacity, len(first.Returned))
+	delivered = append(delivered, copyBatch(first)...)
+
+	// fill the ring again, nobody can take the policy buffers
+	for i := 0; i < capacity; i++ {
+		next++
+		require.Nil(t, b.Add(ReadBufItem[int, int]{hash: next}))
+	}
+
+	// slow consumer done
+	b.Free()
+
+	batch, ok := addUntilBatch(b, &next, 2*capacity)
+	require.True(t, ok, "no batch delivered after Free, buffer is wedged")
+	require.NotEmpty(t, batch)
+	require.LessOrEqual(t, len(batch), capacity)
+	delivered = append(delivered, batch...)
+
+	// and the buffer keeps working
+	for r := 0; r < 4; r++ {
+		batch, ok = addUntilBatch(b, &next, 2*capacity)
+		require.True(t, ok)
+		require.NotEmpty(t, batch)
+		require.LessOrEqual(t, len(batch), capacity)
+		delivered = append(delivered, batch...)
+	}
+
+	requireAtMostOnce(t, delivered, next)
+	// single goroutine, only items offered to a full ring may be lost
+	require.GreaterOrEqual(t, len(delivered), 6*capacity)
+
+	b.Clear()
+	require.Empty(t, b.items())
+	batch, ok = addUntilBatch(b, &next, capacity)
+	require.True(t, ok)
+	require.Equal(t, capacity, len(batch))
+}
+
+func TestBuffer_ConcurrentSlowConsumer(t *testing.T) {
+	const (
+		producers = 8
+		perG      = 3000
+	)
+	b := NewBuffer[int, int]()
+
+	var holders atomic.Int32
+	var wg sync.WaitGroup
+	results := make([][]uint64, producers)
+	errs := make([]string, producers)
+
+	for g := 0; g < producers; g++ {
+		wg.Add(1)
+		go func(g int) {
+			defer wg.Done()
+			base := uint64(g * perG)
+			batches := 0
+			for i := 1; i <= perG; i++ {
+				pb := b.Add(ReadBufItem[int, int]{hash: base + uint64(i)})
+				if pb == nil {
+					continue
+				}
+				if holders.Add(1) != 1 {
+					errs[g] = "policy buffers owned by two goroutines"
+				}
+				if len(pb.Returned) > capacity {
+					errs[g] = "batch larger than capacity"
+				}
+				results[g] = append(results[g], copyBatch(pb)...)
+				// slow consumer, let the others fill the ring meanwhile
+				batches++
+				if batches%8 == 0 {
+					time.Sleep(20 * time.Microsecond)
+				} else {
+					for y := 0; y < 1+g%3; y++ {
+						runtime.Gosched()
+					}
+				}
+				holders.Add(-1)
+				b.Free()
+			}
+		}(g)
+	}
+	wg.Wait()
+
+	delivered := []uint64{}
+	for g := 0; g < producers; g++ {
+		require.Empty(t, errs[g])
+		delivered = append(delivered, results[g]...)
+	}
+	require.NotEmpty(t, delivered)
+
+	// all batches freed and no concurrent activity: must not be wedged
+	next := uint64(producers * perG)
+	for r := 0; r < 3; r++ {
+		batch, ok := addUntilBatch(b, &next, 2*capacity)
+		require.True(t, ok, "no batch delivered after producers stopped, buffer is wedged")
+		require.LessOrEqual(t, len(batch), capacity)
+		delivered = append(delivered, batch...)
+	}
+
+	requireAtMostOnce(t, delivered, next)
+}
